@@ -344,17 +344,20 @@ H("s2_char_width", LOSSY_MOD, "S2", quick=["C14"], cost=3, inst="-", funcs=["col
 for n in (2, 3, 4):
     H("s2_lossy_n%d" % n, LOSSY_MOD, "S2", quick=["C14"] if n == 3 else [], thorough=["C14"], timeout=2400, cost=60, mem_gb=16, inst="-",
       funcs=["Utf8LossyChunksIter::next"], bounds={"input": "every byte string of 1..%d bytes" % n, "oracle": "RFC 3629 maximal-subpart spec (validated natively against <[u8]>::utf8_chunks)"})
-S1 = ["push", "push_str", "pop", "insert", "insert_str", "remove", "truncate", "split_off", "drain", "replace", "replace_incl", "retain"]
+S1 = ["push_str", "pop", "insert", "insert_str", "remove", "truncate", "split_off", "drain", "retain"]
+S1_QUICK = {("push_str", 3), ("pop", 4), ("insert", 3), ("remove", 4), ("truncate", 3), ("drain", 4), ("split_off", 2)}
 for op in S1:
-    H("s1_" + op, "__verif::s1", "S1", quick=["C14"] if op in ("push", "pop", "insert", "remove", "truncate", "drain", "replace_incl") else [], thorough=["C14"],
-      timeout=2400, cost=60, mem_gb=16, stubs=STUB_CUT + STUB_LOOPS, inst="String", funcs=["collections::String::" + op],
-      bounds={"text": "any valid UTF-8 of 0..4 bytes", "index/range": "any LEGAL value (boundary, in range)", "char": "any char"})
-for op in ["insert", "insert_str", "remove", "truncate", "split_off", "drain", "replace", "replace_incl"]:
-    H("s1p_" + op, "__verif::s1", "S1", quick=["C14"] if op in ("insert", "split_off", "replace_incl") else [], thorough=["C14"],
-      timeout=2400, cost=40, mem_gb=16, stubs=STUB_CUT + STUB_LOOPS, inst="String", funcs=["collections::String::" + op],
-      allow=[r"is_char_boundary|assertion failed|out of bounds|index|range|slice|byte index|cannot remove|placeholder message"],
-      bounds={"text": "any valid UTF-8 of 0..4 bytes", "index/range": "any ILLEGAL value (non-boundary or out of range)", "expectation": "the call does not return"})
-H("s2_from_utf8", "__verif::s1", "S2", quick=["C14"], thorough=["C14"], timeout=2400, cost=60, mem_gb=16, stubs=STUB_CUT + STUB_LOOPS, inst="String",
+    for n in (2, 3, 4):
+        H("s1_%s_n%d" % (op, n), "__verif::s1", "S1", quick=["C14"] if (op, n) in S1_QUICK else [], thorough=["C14"],
+          timeout=2400, cost=60, mem_gb=16, stubs=STUB_CUT + STUB_LOOPS, inst="String", funcs=["collections::String::" + op],
+          bounds={"text": "any valid UTF-8 of exactly %d bytes (contents symbolic)" % n, "index/range": "any LEGAL value (boundary, in range)", "char": "any char", "capacity": "12 (no reallocation)"})
+for op in ["insert", "insert_str", "remove", "truncate", "split_off", "drain"]:
+    for n in (2, 4):
+        H("s1p_%s_n%d" % (op, n), "__verif::s1", "S1", quick=["C14"] if (op, n) in (("insert", 2), ("split_off", 4), ("remove", 2)) else [], thorough=["C14"],
+          timeout=2400, cost=40, mem_gb=16, stubs=STUB_CUT + STUB_LOOPS, inst="String", funcs=["collections::String::" + op],
+          allow=[r"is_char_boundary|assertion failed|out of bounds|index|range|slice|byte index|cannot remove|placeholder message"],
+          bounds={"text": "any valid UTF-8 of exactly %d bytes" % n, "index/range": "any ILLEGAL value (non-boundary or out of range)", "expectation": "the call does not return"})
+H("s2_from_utf8", "__verif::s1", "S2", quick=[], thorough=["C14"], timeout=2400, cost=60, mem_gb=16, stubs=STUB_CUT + STUB_LOOPS, inst="String",
   funcs=["collections::String::from_utf8", "FromUtf8Error"], bounds={"input": "every byte string of 0..2 bytes (3 bytes: solver ran out of 16 GB in core::str validation)"})
 
 
